@@ -216,6 +216,8 @@ pub fn lazy_h<Tr: ?Sized + Trait + Cloneable, B: Backend, BY: Backend, E: Elem +
             drop(l2b);
             vp_assert!(elems::total_clones() == 0 && elems::total_drops() == d0, "VP: copying / dropping a lazy clone must not clone or destroy");
             vp_assert!(l1.value_typeid() == TypeId::of::<E>() && l1.size() == core::mem::size_of::<E>(), "VP: lazy clone misreports type id / size");
+            vp_assert!(l2.value_typeid() == TypeId::of::<E>() && l2.size() == core::mem::size_of::<E>() && l3.size() == core::mem::size_of::<E>(), "VP: lazy clone misreports type id / size");
+            vp_assert!(l1.as_bytes().len() == core::mem::size_of::<E>() && l3.as_bytes().len() == core::mem::size_of::<E>(), "VP: lazy clone byte view has the wrong length");
             let mut u = 0;
             while u < 3 {
                 if u < uses {
